@@ -37,6 +37,17 @@ Inductive rans :=
 (* result of PayloadSender::need_read *)
 Inductive pstatus := PRead | PPause | PDropped.
 
+(* read_available at the MAX_BUFFER_SIZE cap (dispatcher.rs, the three-way match on
+   `payload.as_ref().map(|p| p.need_read(cx))`): no socket read was polled to Pending, so nobody
+   is registered; the task forces its own wake-up UNLESS the payload consumer is alive and
+   applying back-pressure (Pause: need_read has registered the payload's io waker).
+   Dropped (drain mode), Read and "no payload" all self-wake. *)
+Definition cap_self_wake (status : option pstatus) : bool :=
+  match status with
+  | Some PPause => false
+  | Some PDropped | Some PRead | None => true
+  end.
+
 Inductive rares := RaOk (should_disconnect : bool) | RaErr.
 
 Record raout := mk_raout
@@ -62,10 +73,8 @@ Section ReadAvailable.
     | O => mk_raout buf RaErr script false false false unfin reads         (* not reached *)
     | S fuel' =>
         if MAXB <=? lenN buf then
-          match pl with
-          | Some PPause => mk_raout buf (RaOk false) script false false true unfin reads
-          | _ => mk_raout buf (RaOk false) script false true false unfin reads
-          end
+          mk_raout buf (RaOk false) script false (cap_self_wake pl)
+                   (match pl with Some PPause => true | _ => false end) unfin reads
         else
           match script with
           | [] => mk_raout buf (RaOk false) [] true false false unfin reads
